@@ -630,7 +630,7 @@ package desync
 //@ func (l *sparseFileLoader) loadChunk
 //@   prop C10
 //@   requires wfSparse(l) && 0 <= i && i < len(l.chunks) && held(l.mu) == 0 && 8*len(l.done) >= len(l.chunks)
-//@   modifies l.done, l.mu, allmem(uint8), heap(sparseIndexChunk.mu), heap(Chunk.data), l.s.$gets, l.s.$lastErr, $attempts, $last
+//@   modifies l.done, l.mu, allmem(uint8), heap(sparseIndexChunk.mu), heap(Chunk.data), l.s.$gets, l.s.$lastErr, $attempts, $last, $fv
 //@   ensures r0 == nil ==> bitAt(bytes(l.done), i)
 //@   ensures held(l.mu) == 0 && len(l.done) == old(len(l.done))
 //# bits already set stay set (what other loaders and this one did is monotone)
@@ -1542,3 +1542,32 @@ package desync
 //@   oncall WriteTo: requires is($arg0, *os.File) && fsize0(as($arg0, *os.File)) == 0
 //@   ghost@after:WriteTo $last = $r1
 //@   ensures r0 == nil ==> $last == nil
+
+// ---------------------------------------------------------------------------------------------
+// C08 (in-place re-run) / C01 / C03: writeChunk. A range of the target that already holds the chunk
+// (its digest is the chunk's ID) is kept: nothing is fetched and nothing is written. Otherwise, when
+// no self-seed segment is used, success means the range now holds bytes whose digest is the chunk's ID.
+
+//@ ghost var $noseg bool
+//@ func (ss *selfSeed) getChunk(id) (r0)
+//@   pure
+//@ func (s SeedSegment) WriteInto(dst, offset, end, blocksize, isBlank) (copied, cloned, err)
+//@   pure
+//@   modifies $fv
+//@ func (s *ExtractStats) incChunksFromStore()
+//@   pure
+//@ func (s *ExtractStats) incChunksInPlace()
+//@   pure
+//@ func (s *ExtractStats) addBytesCopied(n)
+//@   pure
+//@ func (s *ExtractStats) addBytesCloned(n)
+//@   pure
+
+//@ func writeChunk
+//@   prop C08
+//@   safety none
+//@   requires c.Start < 1<<62 && c.Size < 1<<62 && !s.$skip
+//@   modifies allmem(uint8), heap(Chunk.data), s.$gets, s.$lastErr, $fv, $noseg
+//@   ghost@after:getChunk $noseg = ($r0 == nil)
+//@   ensures @C08 $noseg && !isBlank && H(old(frange(f, c.Start, c.Size))) == c.ID ==> s.$gets == old(s.$gets) && $fv == old($fv)
+//@   ensures @C08,C01,C03 $noseg && r0 == nil ==> H(frange(f, c.Start, c.Size)) == c.ID
